@@ -202,6 +202,8 @@ def run(ctx, rep) -> None:
 
     # ---- R1 (structural part; the predicate part is decided by E7 in _r1_pred) ----------------------------
     _r1(ctx, rep)
+    _r11_incomplete_branches(ctx, rep)
+    _r12_after_stage_gate(ctx, rep)
     _r6(ctx, rep)
 
     # ---- R2 ----------------------------------------------------------------------------------------
@@ -589,3 +591,105 @@ def _r1(ctx, rep) -> None:
     on = prog.func("stabilize.handlers.complete_workflow", "CompleteWorkflowHandler._handle_with_retry.on_execution").node
     g = [s for s in on.body if isinstance(s, ast.If) and norm(s.test) == "status is None" and isinstance(s.body[-1], ast.Return)]
     rep.check(bool(g), "C05.R1", "a None outcome leaves the workflow untouched", "if status is None: return", fi.file, g[0].lineno if g else on.lineno, disc="none")
+
+
+# ---- R11 / R12 ---------------------------------------------------------------------------------------------------------
+def _r11_incomplete_branches(ctx, rep) -> None:
+    """`_other_branches_incomplete` decides whether a workflow with a STOPPED (failPipeline=false) stage may be finalised.
+    Read as EXISTS stage: P(status, upstreams complete) and tabulated over every status member x {True, False}."""
+    from ..stagepred import eval_pred, exists_predicate
+
+    prog, T = ctx.prog, ctx.st
+    rep.rule("C05.R11", "_other_branches_incomplete counts as unfinished: every RUNNING, SUSPENDED or PAUSED stage and every NOT_STARTED stage whose upstreams are complete (its StartStage is in flight); and no stage in a completed status")
+    fi = prog.func("stabilize.handlers.complete_workflow", "CompleteWorkflowHandler._other_branches_incomplete")
+    ep = exists_predicate(fi.node)
+    if ep is None:
+        raise AnalysisError("_other_branches_incomplete: not of the form `exists stage in stages: P(stage)` (for/if/return True, any(...), not all(...))")
+    var, disj = ep
+    table = {}
+    for m in T.members:
+        for U in (True, False):
+            vals = [eval_pred(d, var, m, U, T) for d in disj]
+            if any(v is True for v in vals):
+                table[(m, U)] = True
+            elif any(v is None for v in vals):
+                raise AnalysisError(f"_other_branches_incomplete: a disjunct is not a predicate over (status, all_upstream_stages_complete()): {[norm(d) for d, v in zip(disj, vals) if v is None][0]}")
+            else:
+                table[(m, U)] = False
+    must = [(m, U) for m in ("RUNNING", "SUSPENDED", "PAUSED") for U in (True, False)] + [("NOT_STARTED", True)]
+    why = {"RUNNING": "the stage is executing", "SUSPENDED": "the stage waits for its signal and resumes when it arrives", "PAUSED": "the stage resumes when the workflow is resumed",
+           "NOT_STARTED": "all of its upstreams are complete, so its StartStage is queued or about to be: the branch is between two stages"}
+    for m, U in must:
+        if m != "NOT_STARTED" and U is False:
+            continue
+        ok = table[(m, U)] and (m == "NOT_STARTED" or table[(m, False)])
+        rep.check(ok, "C05.R11", f"a {m} stage{' with complete upstreams' if m == 'NOT_STARTED' else ''} keeps the workflow open", f"P({m}) = {table[(m, U)]}" + ("" if ok else
+                  f": {why[m]}, yet a workflow with a STOPPED stage is finalised SUCCEEDED over it - the stage is then cancelled / its work never runs"), fi.file, fi.node.lineno, disc=f"incomplete:{m}")
+    done = sorted(m for m in T.complete if table[(m, True)] or table[(m, False)])
+    rep.check(not done, "C05.R11", "a finished stage does not keep the workflow open", "P(m) = False for every completed status" if not done else f"P is true for completed statuses {done}: CompleteWorkflow is re-queued until its budget is spent and the workflow ends TERMINAL",
+              fi.file, fi.node.lineno, disc="incomplete:completed")
+    # the helper is what guards the STOPPED branch
+    df = prog.func("stabilize.handlers.complete_workflow", "CompleteWorkflowHandler._determine_final_status").node
+    from ..dom import conditions_at
+    rets = [r for r in ast.walk(df) if isinstance(r, ast.Return) and r.value is not None and norm(r.value) in ("WorkflowStatus.SUCCEEDED",)]
+    guarded = 0
+    for r in rets:
+        cs = conditions_at(df, r)
+        if any("WorkflowStatus.STOPPED in" in t and tr for t, tr in cs):
+            ok = any("_other_branches_incomplete(" in t and not tr for t, tr in cs)
+            guarded += 1
+            rep.check(ok, "C05.R11", "SUCCEEDED over a STOPPED stage only when no other branch is unfinished", "return SUCCEEDED under `not self._other_branches_incomplete(stages)`" if ok else "the STOPPED branch returns SUCCEEDED without consulting _other_branches_incomplete",
+                      fi.file, r.lineno, disc="incomplete:guard")
+
+
+def _r12_after_stage_gate(ctx, rep) -> None:
+    """CompleteStage starts pre-declared after-stages when the stage's core work (tasks + before-stages) is finished without
+    halting.  The same decision exists twice: on the stage-level status (`status.is_complete and not status.is_halt`) and, while
+    the after-stages are still NOT_STARTED, element-wise on the core statuses.  Both must accept exactly the same statuses."""
+    from ..dom import raw_conditions_at
+    from ..statuspred import status_set
+
+    prog, T = ctx.prog, ctx.st
+    rep.rule("C05.R12", "CompleteStage: the element-wise 'core work done' gate for NOT_STARTED after-stages accepts exactly the statuses that are complete and not halting (the stage-level gate)")
+    want = frozenset(T.complete) - frozenset(T.halt)
+    cls = prog.cls("stabilize.handlers.complete_stage.handler", "CompleteStageHandler")
+    n = 0
+    for mname, mi in cls.methods.items():
+        for fn in [x for x in ast.walk(mi.node) if isinstance(x, (ast.FunctionDef, ast.AsyncFunctionDef))]:
+            for a in ast.walk(fn):
+                if not (isinstance(a, ast.Assign) and isinstance(a.value, ast.Constant) and a.value.value is True and isinstance(a.targets[0], ast.Name)):
+                    continue
+                flag = a.targets[0].id
+                # the flag must be the one that gates `first_after_stages()` handling
+                uses = [i for i in ast.walk(fn) if isinstance(i, ast.If) and isinstance(i.test, ast.Name) and i.test.id == flag and "first_after_stages" in norm(i)]
+                if not uses:
+                    continue
+                gates = []
+                for t, truth in raw_conditions_at(fn, a):
+                    for c in ast.walk(t):
+                        if isinstance(c, ast.Call) and isinstance(c.func, ast.Name) and c.func.id == "all" and len(c.args) == 1 and isinstance(c.args[0], (ast.GeneratorExp, ast.ListComp)) and truth:
+                            gates.append(c)
+                if not gates:
+                    continue
+                for c in gates:
+                    g = c.args[0].generators[0]
+                    if not isinstance(g.target, ast.Name):
+                        continue
+                    pred = c.args[0].elt
+                    for cond in g.ifs:
+                        pred = ast.BoolOp(op=ast.And(), values=[cond, pred])
+                    ss = None
+                    for subject in (g.target.id, g.target.id + ".status"):
+                        ss = status_set(pred, subject, T)
+                        if ss is not None:
+                            break
+                    if ss is None:
+                        raise AnalysisError(f"CompleteStage core-work gate `{norm(c)[:80]}` is not a status predicate")
+                    n += 1
+                    miss, extra = sorted(want - ss), sorted(ss - want)
+                    ok = not miss and not extra
+                    rep.check(ok, "C05.R12", "core-work gate for pre-declared after-stages", f"accepts {sorted(ss)}" + ("" if ok else
+                              (f"; rejects {miss}: a stage whose task / before-stage ended in one of them never starts its NOT_STARTED after-stages - CompleteStage is dropped as stale and the stage stays RUNNING with nothing queued" if miss else "") +
+                              (f"; also accepts {extra}: after-stages start while core work is unfinished or halted" if extra else "")), mi.file, c.lineno, disc="after-gate")
+    if n == 0:
+        raise AnalysisError("CompleteStage: the element-wise core-work gate (`all(<status predicate> for s in core)` setting the after-stage flag) was not found")
